@@ -615,6 +615,7 @@ type RouterOpts struct {
 	Interceptors []string `json:"ic,omitempty"` // rule names: digit word any
 	Recovery     string   `json:"recovery,omitempty"`
 	URLDomain    string   `json:"domain,omitempty"`
+	CORS         string   `json:"cors,omitempty"` // "" | any | list | cred | deny
 }
 
 // fixed component ids of the non-route handlers of router number k
@@ -673,6 +674,16 @@ func (o RouterOpts) muxOptions(e *Env, extra ...mux.Option) []mux.Option {
 	}
 	if o.URLDomain != "" {
 		opts = append(opts, mux.WithURLDomain(o.URLDomain))
+	}
+	switch o.CORS {
+	case "any":
+		opts = append(opts, mux.WithAllowedCORS(3600))
+	case "list":
+		opts = append(opts, mux.WithCORS([]string{"https://a.com", "https://b.com"}, []string{"Content-Type", "X-Token"}, []string{"X-Exposed"}, -1, false))
+	case "cred":
+		opts = append(opts, mux.WithCORS([]string{"https://a.com"}, []string{"*"}, nil, 0, true))
+	case "deny":
+		opts = append(opts, mux.WithDenyCORS())
 	}
 	return append(opts, extra...)
 }
